@@ -127,6 +127,11 @@ impl<'tcx> Cx<'tcx> {
         }
     }
 
+    /// crate-qualified definition path (independent of re-exports), e.g. scpi::parser::tokenizer::util::mnemonic_match
+    fn dpath(&self, d: DefId) -> String {
+        format!("{}{}", self.tcx.crate_name(d.krate).as_str(), self.tcx.def_path(d).to_string_no_crate_verbose())
+    }
+
     fn loc(&self, sp: Span) -> String {
         if sp.is_dummy() {
             return "?".into();
@@ -419,6 +424,7 @@ impl<'tcx> Cx<'tcx> {
         if let Some((d, args)) = func.const_fn_def() {
             let mut o = vec![
                 ("path", s(self.path(d))),
+                ("dpath", s(self.dpath(d))),
                 ("gargs", J::Arr(args.iter().map(|a| s(with_no_trimmed_paths!(format!("{a}")))).collect())),
                 ("krate", s(self.tcx.crate_name(d.krate).as_str())),
             ];
@@ -441,6 +447,7 @@ impl<'tcx> Cx<'tcx> {
                 Ok(Some(inst)) => {
                     let rd = inst.def_id();
                     o.push(("resolved", s(self.path(rd))));
+                    o.push(("resolved_dpath", s(self.dpath(rd))));
                     o.push(("resolved_krate", s(self.tcx.crate_name(rd.krate).as_str())));
                     o.push(("resolved_gargs", J::Arr(inst.args.iter().map(|a| s(with_no_trimmed_paths!(format!("{a}")))).collect())));
                     o.push(("resolved_kind", s(format!("{:?}", std::mem::discriminant(&inst.def)).replace("Discriminant", ""))));
@@ -611,6 +618,7 @@ impl<'tcx> Cx<'tcx> {
         let sp = tcx.def_span(did);
         let mut o = vec![
             ("path", s(self.path(did))),
+            ("dpath", s(self.dpath(did))),
             ("kind", s(format!("{:?}", kind))),
             ("span", s(self.loc(sp))),
             ("mac", self.macros(sp)),
